@@ -20,9 +20,11 @@ n = len(r)
 txt = open(f"{V}/tools/design_asbuilt.md").read()
 txt += f"""### 10.8 Seeded changes: which check catches which change
 
-{n} breaking changes were produced in two rounds by fresh sub-agents that saw only the text of one
+{n} breaking changes were produced in three rounds by fresh sub-agents that saw only the text of one
 property and a scratch worktree under /tmp (round 1: two per property, ids `Cnn-1`, `Cnn-2`;
-round 2: one more per property, `Cnn-3`, asked to look away from the most obvious place). Each
+round 2: one more per property, `Cnn-3`, asked to look away from the most obvious place; round 3:
+`Cnn-4`, given one-line descriptions of the earlier changes to that property and asked for something
+different in kind, in a helper nobody had touched). Each
 was confirmed by me (applies to HEAD, suite still 147 passed, its own `demo.py` exits 0 without
 and 1 with the change — `seeded/<id>/confirm.txt`) and is kept as
 `seeded/<id>/{{patch.diff, demo.py, notes.md, meta.json}}`. `tools/seed_matrix.py` applies each to
@@ -56,7 +58,28 @@ What the seeded changes taught, and what was added to the checks because of them
   with fewer slots than the KSR has bundles; C17-3 (bundle table drops fractional seconds) →
   the table is now read back and compared with the parsed instants; C10-3 → a re-keyed KSR that
   re-uses the published identifiers.
-* Everything else in both rounds was caught by the check as it stood.
+* Round 3, missed on first run by the property's own check (all now caught with a failing input):
+  C05-4 (`if not overlap: continue` - a zero overlap skips the overlap rule) -> back-to-back bundles
+  under every flag subset; C06-4 (size comparison skipped when the exponent is waived) -> declared
+  size mismatch with the waiver on; C07-4 (process-wide cache of decoded keys by identifier) -> a
+  later bundle listing another key under a known identifier, signed by the first key; C09-4
+  (`create_skr` copies publish_safety into retire_safety; caught by C02's header check, not by
+  C09's) -> SKRs made by the real `create_skr` under unequal periods fed to the safety check;
+  C01-4 (EC point unwrapping without the inner 0x04 test; caught by C15's check) -> an EC KSK whose
+  X coordinate starts with the wrapper's length octet in C01's signing scenarios. Reported only
+  through the correspondence at first: C08-4 (replay test on (id, serial)) - my replayed-id KSRs
+  also re-used the bundle ids, so another rule refused them; they now carry fresh bundle ids and
+  other serials; C12-4 (attribute regexp accepting either quote) -> apostrophes and other
+  ordinary characters in attribute values of the conformant documents (and the harness no longer
+  stops when the reader refuses a conformant document: that is now a reported violation; the
+  launcher also turns any harness stop into a `no-failing-input-found` violation).
+* Round 3, added after reading the descriptions and before the first run: C17-4 (hex digest printed
+  without leading zeros) -> documents and blobs steered to digests starting with 0 / 00 / 000;
+  C15-4 = C01-4; C04-4 (validity timestamps re-labelled as UTC) -> the window lattice written with
+  UTC offsets; C02-4 (module-level key cache by label) -> two ceremonies in one process whose
+  tokens hold different keys under the same labels; C03-4 (output opened before serialising) -> a
+  ceremony whose SKR cannot be serialised, output path watched; C08-4 see above.
+* Everything else in the three rounds was caught by the check as it stood.
 
 ### 10.9 Running it
 
